@@ -694,9 +694,7 @@ def make_set(I, items, node):
     out = []
     for x in items:
         x = I.force(x)
-        if isinstance(x, Sym):
-            raise OutsideSubset("set of symbolic values")
-        out.append(x)
+        out.append(x)       # symbolic members are kept by identity: membership is decided by ==, len() of such a set is refused
     return set(out)
 
 
